@@ -103,7 +103,9 @@ DirsAfter(c, res, tgt, nl) ==
             ELSE mk                                                        \* compare failed / value already there / rename refused
       [] c.op = "AddIfNew" ->
             IF res \in {"False", "SymrefLoop"} THEN dirs                   \* decided before anything is created
-            ELSE IF res = "Refused" THEN (IF PackedConflict(tgt) THEN dirs ELSE mk)
+            \* (a packed collision is not looked for at all -- reported; a call that is nevertheless
+            \*  refused, because add_if_new finds the symref's own name in packed-refs, has made the directories)
+            ELSE IF res = "Refused" THEN (IF PackedConflict(tgt) /\ ~(c.n # tgt /\ packed[c.n].k # "absent") THEN dirs ELSE mk)
             ELSE ClearAt(mk, tgt)
       [] c.op \in {"Remove", "RemoveIfEquals"} ->
             IF BlockedByFile(loose, tgt) THEN mk                           \* the lock file cannot be created
